@@ -387,6 +387,9 @@ def skeletons(tier):
                   [E_Q, F, F], [F, F, E_B], [E_B, F, F], [F, E_Q, F, E_B], [E_Q, F, E_Q], [E_B, F, E_Q], [F, F, E_Q, F],
                   [F, F, F, E_Q], [E_Q, F, F, F], [F, F, F, E_B], [F, E_U, F, F],
                   [F, "^^", F], [F, "^^<", F], [F, "xsd:", F], [F, " .", F], [F, "rdf:", F, F], [F, F, "^^<", F], [F, "http://www.w3.org/2001/XMLSchema#", F]]
+    if tier != "quick":     # deepest bound: 6 free characters, three suffix forms
+        for sname, sfx in (("none", NONE), ("lang_en", LANG_EN), ("dt_custom", DT_CUSTOM)):
+            out.append(("lit/FFFFFF/%s" % sname, _one(S_IRI, _lit([F] * 6, sfx))))
     for bi, body in enumerate(bodies):
         for sname, sfx in suffixes:
             bname = "".join("F" if x is None else {E_Q: "q", E_B: "b", E_N: "n", E_U: "u"}.get(x, "(%s)" % x) for x in body) or "empty"
@@ -419,5 +422,5 @@ BOUNDS = {
     "quick": "single statements (and 3 two-statement documents): literal bodies of <= 3 free symbolic characters interleaved with <= 2 escapes "
              "(\\\" \\\\ \\n \\uXXXX) x 8 suffix forms; <= 2 free characters per IRI / blank-node label / language subtag, 1 in a datatype IRI, "
              "<= 2 in a trailing comment; separators blank/tab/multiple; tails ' .', '.', TAB '.', ' . # comment'",
-    "thorough": "as quick with literal bodies of <= 5 free symbolic characters (<= 4 next to escapes), comments of <= 3 characters",
+    "thorough": "as quick with literal bodies of <= 5 free symbolic characters (<= 4 next to escapes; 6 for the suffix forms none / @en / custom datatype), comments of <= 3 characters",
 }
